@@ -197,6 +197,45 @@ fn getter_checks(_a: &[f64]) {
             fd_bad.push(json!({"getter": g, "analytic": an, "finite_difference": num, "rel_dev": dev}));
         }
     }
+    // (a') getters with an ideal-gas part: Joback ideal gas + PR residual, Total contribution
+    {
+        use feos::ideal_gas::{Joback, JobackRecord};
+        use feos_core::EquationOfState;
+        let jrecs = vec![
+            PureRecord::new(Identifier::default(), 44.0, JobackRecord::new(-5.2, 0.35, -2.1e-4, 6.3e-8, -1.1e-11)),
+            PureRecord::new(Identifier::default(), 58.0, JobackRecord::new(12.0, 0.2, 1.0e-4, -2.0e-8, 3.0e-12)),
+        ];
+        let ig = Arc::new(Joback::from_records(jrecs, None).unwrap());
+        let eos = Arc::new(EquationOfState::new(ig, pr.clone()));
+        type S2 = State<EquationOfState<Joback, PengRobinson>>;
+        let mk2 = |t: f64, v: f64, n: [f64; 2]| State::new_nvt(&eos, Temperature::from_reduced(t), Volume::from_reduced(v), &Moles::from_reduced(arr1(&n))).unwrap();
+        let c = Contributions::Total;
+        type G2 = Box<dyn Fn(&S2) -> f64>;
+        let gs: Vec<(&str, G2)> = vec![
+            ("helmholtz_energy", Box::new(move |s| s.helmholtz_energy(c).to_reduced())),
+            ("entropy", Box::new(move |s| s.entropy(c).to_reduced())),
+            ("chemical_potential", Box::new(move |s| s.chemical_potential(c).to_reduced()[1])),
+            ("dmu_dt", Box::new(move |s| s.dmu_dt(c).to_reduced()[1])),
+            ("ds_dt", Box::new(move |s| s.ds_dt(c).to_reduced())),
+            ("d2s_dt2", Box::new(move |s| s.d2s_dt2(c).to_reduced())),
+        ];
+        let fd2 = |f: &dyn Fn(&S2) -> f64, dir: usize| -> f64 {
+            let (mut tp, mut tm, mut np, mut nm) = (t0, t0, n0, n0);
+            let x0;
+            if dir == 0 { x0 = t0; tp *= 1.0 + h; tm *= 1.0 - h; } else { x0 = n0[1]; np[1] *= 1.0 + h; nm[1] *= 1.0 - h; }
+            (f(&mk2(tp, v0, np)) - f(&mk2(tm, v0, nm))) / (2.0 * h * x0)
+        };
+        let get2 = |name: &str| -> &G2 { &gs.iter().find(|g| g.0 == name).unwrap().1 };
+        for (g, sg, low, dir) in [("entropy", -1.0, "helmholtz_energy", 0usize), ("chemical_potential", 1.0, "helmholtz_energy", 1), ("dmu_dt", 1.0, "chemical_potential", 0),
+                                  ("ds_dt", 1.0, "entropy", 0), ("d2s_dt2", 1.0, "ds_dt", 0)] {
+            let an = get2(g)(&mk2(t0, v0, n0));
+            let num = sg * fd2(get2(low).as_ref(), dir);
+            let dev = (an - num).abs() / an.abs().max(num.abs()).max(1e-300);
+            if dev > 1e-5 {
+                fd_bad.push(json!({"getter": g, "analytic": an, "finite_difference": num, "rel_dev": dev, "contribution": "Total (Joback + PR)"}));
+            }
+        }
+    }
     // (b) selector
     let s = mk(t0, v0, n0);
     let mut sel_bad = vec![];
